@@ -51,13 +51,17 @@ def run_cli(binary, fmt, text, timeout=60, use_stdin=False, workdir=None, name=N
     if extra_args:
         args = [binary] + list(extra_args)
     t0 = time.time()
-    try:
-        # stdin is always a pipe of our own (never inherited): the input when it is to be read from stdin, else empty
-        data = (text if isinstance(text, bytes) else text.encode("utf-8", "surrogateescape")) if (use_stdin or extra_args) else b""
-        r = subprocess.run(args, input=data, capture_output=True, timeout=timeout, env=env or RUN_ENV)
-        rc, out, err, to = r.returncode, r.stdout, r.stderr, False
-    except subprocess.TimeoutExpired as e:
-        rc, out, err, to = None, e.stdout or b"", e.stderr or b"", True
+    # stdin is always a pipe of our own (never inherited): the input when it is to be read from stdin, else empty
+    data = (text if isinstance(text, bytes) else text.encode("utf-8", "surrogateescape")) if (use_stdin or extra_args) else b""
+    # a wall-clock limit is a watchdog, not an oracle: a run that exceeds it is repeated once with three times the limit (a loaded machine must not
+    # produce verdicts); only a run that exceeds that too is reported as timed out (C14 judges termination; the other drivers call it inconclusive)
+    for limit in (timeout, 3 * timeout):
+        try:
+            r = subprocess.run(args, input=data, capture_output=True, timeout=limit, env=env or RUN_ENV)
+            rc, out, err, to = r.returncode, r.stdout, r.stderr, False
+            break
+        except subprocess.TimeoutExpired as e:
+            rc, out, err, to = None, e.stdout or b"", e.stderr or b"", True
     return dict(exit=rc if rc is not None and rc >= 0 else None, signal=-rc if rc is not None and rc < 0 else None,
                 stdout=out.decode("utf-8", "replace"), stderr=err.decode("utf-8", "replace"), wall=time.time() - t0, timeout=to,
                 argv=args, path=path)
